@@ -62,7 +62,7 @@ package keeper
 //@ define issuedAs(cl, id, name, schema, symbol, creatorStr, mintR, updateR) = cl.Id == id && cl.Name == name && cl.Symbol == symbol
 //@        && DMETA(cl).Creator == creatorStr && DMETA(cl).Schema == schema && DMETA(cl).MintRestricted == mintR && DMETA(cl).UpdateRestricted == updateR
 //@ func Keeper.SaveDenom(ctx, id, name, schema, symbol, creator, mintRestricted, updateRestricted, description, uri, uriHash, data)
-//@   property C14
+//@   property C14, C12
 //@   returns err
 //@   modifies nftClasses
 //@   ensures fresh:  err == nil ==> !old(has(nftClasses, id))
@@ -88,14 +88,14 @@ package keeper
 // Genesis import re-creates EVERY listed class - with or without tokens - under its creator and restriction flags: a
 // class that vanished on import could be re-issued by anybody without the restriction (C14).
 //@ func Keeper.SaveCollection(ctx, collection)
-//@   property C14
+//@   property C14, C12
 //@   returns err
 //@   modifies nftTokens, nftOwner
 //@   invariant #1 idx: rangeindex >= 0 - 1 && rangeindex < len(collection.NFTs)
 //@ end
 //@ define importedAs(cl, dn) = issuedAs(cl, dn.Id, dn.Name, dn.Schema, dn.Symbol, dn.Creator, dn.MintRestricted, dn.UpdateRestricted)
 //@ func Keeper.InitGenesis(ctx, data)
-//@   property C14
+//@   property C14, C12
 //@   modifies nftClasses, nftTokens, nftOwner
 //@   invariant #1 idx:  rangeindex >= 0 - 1 && rangeindex < len(data.Collections)
 //@   invariant #1 done: forall j:Int :: 0 <= j && j <= rangeindex ==> has(nftClasses, data.Collections[j].Denom.Id)
